@@ -270,6 +270,9 @@ impl Oracle for IinOracle {
         let is_echo_step = matches!(step.op, Op::Repeat) && self.echo_possible;
         match &step.op {
             Op::Request { .. } | Op::Raw { .. } => self.echo_possible = step.link_up,
+            // a repetition that reaches a session which has not seen the fragment before (new connection) is executed; from
+            // then on it is this session's last request and a further repetition is echoed
+            Op::Repeat if step.link_up && step.sent.is_some() => self.echo_possible = true,
             _ => {}
         }
         let mut clears_restart = false;
